@@ -25,7 +25,11 @@ E2: bounded exhaustive input enumeration, five families.
              structure), argument types of get_structure, all-empty string columns and empty stacks,
              9/10/11 and 99/100/101 models / chains / residues, every order of the atoms of a residue and of
              four residues of two chains, rotated / permuted / left-handed boxes, every subset of categories
-             forced on a lazily parsed file, refused get_structure calls.
+             forced on a lazily parsed file, refused get_structure calls; strings with two awkward features
+             (all pairs of quote / double quote / blank / tab / special first character / reserved word /
+             line break) in every name position; identity of compress() results; three writes of other
+             sizes on one file with count-caching reads in between; structures handed out by the library
+             itself (indexing, slicing, concatenate, stack, get_structure, from_template, repeat) as input.
   * big    : chains of 1250-66000 hetero residues whose (struct_conn rows x atoms) product lies on both
              sides of the reader's 4 000 000 switch between dense and dictionary partner matching.
 Every written file with bonds is also inspected row by row (struct_conn / chem_comp_bond rows must be
@@ -2550,6 +2554,7 @@ TWO_FEATURES = {
     "blank+special_start_underscore": "_a b", "blank+special_start_semicolon": ";a b",
     "blank+special_start_bracket": "[a b", "blank+special_start_hash": "#a b", "blank+reserved": "save_ x",
     "tab+special_start": "#a\tb", "tab+reserved": "global_\tx", "squote+dquote+blank": "a' \"b",
+    "dquote_then_blank+squote": "a\" b'c", "squote_then_blank+dquote": "a' b\"c",
     "leading_blank+squote": " 'a", "trailing_blank+squote": "a' ", "squote+dquote+special_start": "_'\"",
     "newline+squote": "a'b\nc", "newline+dquote": "a\"b\nc", "newline+blank": "a b\nc d",
 }
@@ -3186,7 +3191,8 @@ def bounds(tier):
         "flavour": {"array_flavours": len(FLAVOURS), "counts": [9, 10, 11, 99, 100, 101],
                     "many_of": ["models", "chains_numeric", "chains_two_letters", "chains_mixed", "residues"],
                     "atom_orders": 24, "residue_orders": 24, "box_orientations": len(ROT_BOXES),
-                    "forced_category_subsets": 16, "cases": sum(1 for _ in flavour_cases(tier, 0))},
+                    "forced_category_subsets": 16, "two_feature_strings": len(TWO_FEATURES),
+                    "string_positions": list(STRING_POSITIONS), "resize_palette": SIZES, "derived_ops": list(DERIVED_OPS), "cases": sum(1 for _ in flavour_cases(tier, 0))},
         "reuse": {"palette": len(REUSE_PALETTE), "kinds": list(REUSE_KINDS), "ordered_pairs": len(REUSE_PALETTE) ** 2,
                   "mid_read": 2, "refusals": list(REFUSALS)},
         "big": {"cases": len(big_cases(tier)), "atoms": "2000-2002" + (", 1250, 4000, 66000" if tier == "thorough" else ""),
